@@ -188,15 +188,15 @@ Proof.
   rewrite IH by lia. reflexivity.
 Qed.
 
-Lemma tri_used t (n : inode R) : n_used (tr_inode t n) = n_used n. Proof. reflexivity. Qed.
-Lemma tri_cell t (n : inode R) : n_cell (tr_inode t n) = n_cell n. Proof. reflexivity. Qed.
-Lemma tri_mom t (n : inode R) : n_mom (tr_inode t n) = n_mom n. Proof. reflexivity. Qed.
-Lemma tri_force t (n : inode R) : n_force (tr_inode t n) = n_force n. Proof. reflexivity. Qed.
-Lemma tri_cpl t (n : inode R) : n_cpl (tr_inode t n) = n_cpl n. Proof. reflexivity. Qed.
-Lemma tri_cpls t (n : inode R) : n_cpls (tr_inode t n) = n_cpls n. Proof. reflexivity. Qed.
-Lemma tri_pos t (n : inode R) : n_pos (tr_inode t n) = n_pos n +v t. Proof. reflexivity. Qed.
+Lemma trin_used t (n : inode R) : n_used (tr_inode t n) = n_used n. Proof. reflexivity. Qed.
+Lemma trin_cell t (n : inode R) : n_cell (tr_inode t n) = n_cell n. Proof. reflexivity. Qed.
+Lemma trin_mom t (n : inode R) : n_mom (tr_inode t n) = n_mom n. Proof. reflexivity. Qed.
+Lemma trin_force t (n : inode R) : n_force (tr_inode t n) = n_force n. Proof. reflexivity. Qed.
+Lemma trin_cpl t (n : inode R) : n_cpl (tr_inode t n) = n_cpl n. Proof. reflexivity. Qed.
+Lemma trin_cpls t (n : inode R) : n_cpls (tr_inode t n) = n_cpls n. Proof. reflexivity. Qed.
+Lemma trin_pos t (n : inode R) : n_pos (tr_inode t n) = n_pos n +v t. Proof. reflexivity. Qed.
 
-Lemma tri_mk t u ce p m f cp cps :
+Lemma trin_mk t u ce p m f cp cps :
   mknode u ce (p +v t) m f cp cps = tr_inode t (mknode u ce p m f cp cps).
 Proof. reflexivity. Qed.
 
@@ -204,8 +204,8 @@ Lemma upd_single_tr t over dt damping m n :
   upd_single NumR over dt damping m (tr_inode t n) = tr_inode t (upd_single NumR over dt damping m n).
 Proof.
   unfold upd_single, upd_over, upd_dyn. cbv zeta. destruct over;
-    rewrite ?tri_used, ?tri_cell, ?tri_mom, ?tri_force, ?tri_cpl, ?tri_cpls, ?tri_pos;
-    rewrite vadd_tr_l; reflexivity.
+    rewrite ?trin_used, ?trin_cell, ?trin_mom, ?trin_force, ?trin_cpl, ?trin_cpls, ?trin_pos;
+    rewrite !(vadd_tr_l _ _ t); reflexivity.
 Qed.
 
 Lemma upd_pair_tr t over dt damping m1 m2 n1 n2 :
@@ -213,51 +213,51 @@ Lemma upd_pair_tr t over dt damping m1 m2 n1 n2 :
   (tr_inode t (fst (upd_pair NumR over dt damping m1 m2 n1 n2)), tr_inode t (snd (upd_pair NumR over dt damping m1 m2 n1 n2))).
 Proof.
   unfold upd_pair. cbv zeta. destruct over; cbn [fst snd];
-    rewrite ?tri_used, ?tri_cell, ?tri_mom, ?tri_force, ?tri_cpl, ?tri_cpls, ?tri_pos;
-    rewrite !vadd_tr_l; reflexivity.
+    rewrite ?trin_used, ?trin_cell, ?trin_mom, ?trin_force, ?trin_cpl, ?trin_cpls, ?trin_pos;
+    rewrite !(vadd_tr_l _ _ t); reflexivity.
 Qed.
 
 Lemma upd_pair_fst_tr t over dt damping m1 m2 n1 n2 :
   fst (upd_pair NumR over dt damping m1 m2 (tr_inode t n1) n2) = tr_inode t (fst (upd_pair NumR over dt damping m1 m2 n1 n2)).
 Proof.
   unfold upd_pair. cbv zeta. destruct over; cbn [fst snd];
-    rewrite ?tri_used, ?tri_cell, ?tri_mom, ?tri_force, ?tri_cpl, ?tri_cpls, ?tri_pos;
-    rewrite !vadd_tr_l; reflexivity.
+    rewrite ?trin_used, ?trin_cell, ?trin_mom, ?trin_force, ?trin_cpl, ?trin_cpls, ?trin_pos;
+    rewrite !(vadd_tr_l _ _ t); reflexivity.
 Qed.
 
 Section IntegratorTr.
   Variable t : vR.
-  Notation tri := (tr_inode t).
+  Notation trI := (tr_inode t).
   Notation dn := (dnode NumR).
   Notation dc := (dcell NumR).
 
   Lemma nth_tr_cases g (l : list (inode R)) :
-    ((g < length l)%nat /\ nth g (map tri l) dn = tri (nth g l dn)) \/
-    ((length l <= g)%nat /\ nth g (map tri l) dn = dn /\ nth g l dn = dn).
+    ((g < length l)%nat /\ nth g (map trI l) dn = trI (nth g l dn)) \/
+    ((length l <= g)%nat /\ nth g (map trI l) dn = dn /\ nth g l dn = dn).
   Proof.
     destruct (Nat.lt_ge_cases g (length l)) as [H | H].
-    - left. split; [exact H |]. rewrite (nth_indep _ dn (tri dn)) by (rewrite map_length; exact H). apply map_nth.
+    - left. split; [exact H |]. rewrite (nth_indep _ dn (trI dn)) by (rewrite map_length; exact H). apply map_nth.
     - right. split; [exact H |]. split; apply nth_overflow; [rewrite map_length |]; exact H.
   Qed.
 
-  Lemma nth_tr_cell g l : n_cell (nth g (map tri l) dn) = n_cell (nth g l dn).
+  Lemma nth_tr_cell g l : n_cell (nth g (map trI l) dn) = n_cell (nth g l dn).
   Proof. destruct (nth_tr_cases g l) as [[_ E] | [_ [E1 E2]]]; [rewrite E | rewrite E1, E2]; reflexivity. Qed.
-  Lemma nth_tr_force g l : n_force (nth g (map tri l) dn) = n_force (nth g l dn).
+  Lemma nth_tr_force g l : n_force (nth g (map trI l) dn) = n_force (nth g l dn).
   Proof. destruct (nth_tr_cases g l) as [[_ E] | [_ [E1 E2]]]; [rewrite E | rewrite E1, E2]; reflexivity. Qed.
-  Lemma nth_tr_mom g l : n_mom (nth g (map tri l) dn) = n_mom (nth g l dn).
+  Lemma nth_tr_mom g l : n_mom (nth g (map trI l) dn) = n_mom (nth g l dn).
   Proof. destruct (nth_tr_cases g l) as [[_ E] | [_ [E1 E2]]]; [rewrite E | rewrite E1, E2]; reflexivity. Qed.
 
   Lemma fold_proc_tr (proc : list (inode R) -> nat -> list (inode R)) :
-    (forall nodes k, proc (map tri nodes) k = map tri (proc nodes k)) ->
-    forall ks nodes, fold_left proc ks (map tri nodes) = map tri (fold_left proc ks nodes).
+    (forall nodes k, proc (map trI nodes) k = map trI (proc nodes k)) ->
+    forall ks nodes, fold_left proc ks (map trI nodes) = map trI (fold_left proc ks nodes).
   Proof. intros H ks. induction ks as [| k ks IH]; intros nodes; cbn [fold_left]; [reflexivity |]. rewrite H. apply IH. Qed.
 
   Lemma process0_tr over dt damping cells nodes k :
-    process0 NumR over dt damping cells (map tri nodes) k = map tri (process0 NumR over dt damping cells nodes k).
+    process0 NumR over dt damping cells (map trI nodes) k = map trI (process0 NumR over dt damping cells nodes k).
   Proof.
     unfold process0. cbv zeta.
     destruct (nth_tr_cases k nodes) as [[Hk E] | [Hk [E1 E2]]].
-    - rewrite E, tri_cell, tri_used.
+    - rewrite E, trin_cell, trin_used.
       destruct (c_static (nth (n_cell (nth k nodes dn)) cells dc)); [reflexivity |].
       destruct (negb (n_used (nth k nodes dn))); [reflexivity |].
       rewrite upd_single_tr. apply set_nth_map.
@@ -266,11 +266,11 @@ Section IntegratorTr.
   Qed.
 
   Lemma process1_tr over dt damping cells nodes k :
-    process1 NumR over dt damping cells (map tri nodes) k = map tri (process1 NumR over dt damping cells nodes k).
+    process1 NumR over dt damping cells (map trI nodes) k = map trI (process1 NumR over dt damping cells nodes k).
   Proof.
     unfold process1. cbv zeta.
     destruct (nth_tr_cases k nodes) as [[Hk E] | [Hk [E1 E2]]].
-    - rewrite E, tri_cell, tri_used, tri_cpl.
+    - rewrite E, trin_cell, trin_used, trin_cpl.
       set (n1 := nth k nodes dn).
       destruct (c_static (nth (n_cell n1) cells dc)); [reflexivity |].
       destruct (negb (n_used n1)); [reflexivity |].
@@ -286,7 +286,7 @@ Section IntegratorTr.
           pose proof (upd_pair_fst_tr t over dt damping (c_mass (nth (n_cell n1) cells dc))
                         (c_mass (nth (n_cell dn) cells dc)) n1 dn) as Hf.
           destruct (upd_pair NumR over dt damping (c_mass (nth (n_cell n1) cells dc))
-                      (c_mass (nth (n_cell dn) cells dc)) (tri n1) dn) as [aL bL].
+                      (c_mass (nth (n_cell dn) cells dc)) (trI n1) dn) as [aL bL].
           destruct (upd_pair NumR over dt damping (c_mass (nth (n_cell n1) cells dc))
                       (c_mass (nth (n_cell dn) cells dc)) n1 dn) as [aR bR].
           cbn [fst] in Hf. subst aL.
@@ -330,28 +330,28 @@ Section IntegratorTr.
               (set_nth nodes k (p2_ap over dt damping cells nodes n1 n1)).
   Proof. reflexivity. Qed.
 
-  Lemma p2_ok_tr cells nodes n1 : p2_ok cells (map tri nodes) (tri n1) = p2_ok cells nodes n1.
-  Proof. unfold p2_ok. rewrite tri_cpls, tri_cell. apply forallb_ext'. intros g. rewrite nth_tr_cell. reflexivity. Qed.
+  Lemma p2_ok_tr cells nodes n1 : p2_ok cells (map trI nodes) (trI n1) = p2_ok cells nodes n1.
+  Proof. unfold p2_ok. rewrite trin_cpls, trin_cell. apply forallb_ext'. intros g. rewrite nth_tr_cell. reflexivity. Qed.
 
   Lemma p2_ap_tr over dt damping cells nodes n1 n :
-    p2_ap over dt damping cells (map tri nodes) (tri n1) (tri n) = tri (p2_ap over dt damping cells nodes n1 n).
+    p2_ap over dt damping cells (map trI nodes) (trI n1) (trI n) = trI (p2_ap over dt damping cells nodes n1 n).
   Proof.
-    unfold p2_ap. cbv zeta. rewrite !tri_cpls, !tri_cell, !tri_force, !tri_mom, !tri_used, !tri_cpl, !tri_pos.
-    rewrite (fold_left_ext' (fun acc g => vadd NumR acc (n_force (nth g (map tri nodes) dn)))
+    unfold p2_ap. cbv zeta. rewrite !trin_cpls, !trin_cell, !trin_force, !trin_mom, !trin_used, !trin_cpl, !trin_pos.
+    rewrite (fold_left_ext' (fun acc g => vadd NumR acc (n_force (nth g (map trI nodes) dn)))
                             (fun acc g => vadd NumR acc (n_force (nth g nodes dn))))
       by (intros a x; rewrite nth_tr_force; reflexivity).
-    rewrite (fold_left_ext' (fun acc g => vadd NumR acc (n_mom (nth g (map tri nodes) dn)))
+    rewrite (fold_left_ext' (fun acc g => vadd NumR acc (n_mom (nth g (map trI nodes) dn)))
                             (fun acc g => vadd NumR acc (n_mom (nth g nodes dn))))
       by (intros a x; rewrite nth_tr_mom; reflexivity).
-    rewrite (fold_left_ext' (fun acc g => acc + c_mass (nth (n_cell (nth g (map tri nodes) dn)) cells dc))
+    rewrite (fold_left_ext' (fun acc g => acc + c_mass (nth (n_cell (nth g (map trI nodes) dn)) cells dc))
                             (fun acc g => acc + c_mass (nth (n_cell (nth g nodes dn)) cells dc)))
       by (intros a x; rewrite nth_tr_cell; reflexivity).
-    destruct over; rewrite vadd_tr_l; reflexivity.
+    destruct over; rewrite !(vadd_tr_l _ _ t); reflexivity.
   Qed.
 
-  Lemma grp_fold_tr (apL apR : inode R -> inode R) (H : forall n, apL (tri n) = tri (apR n)) grp : forall nd,
-    fold_left (fun nd g => set_nth nd g (apL (nth g nd dn))) grp (map tri nd) =
-    map tri (fold_left (fun nd g => set_nth nd g (apR (nth g nd dn))) grp nd).
+  Lemma grp_fold_tr (apL apR : inode R -> inode R) (H : forall n, apL (trI n) = trI (apR n)) grp : forall nd,
+    fold_left (fun nd g => set_nth nd g (apL (nth g nd dn))) grp (map trI nd) =
+    map trI (fold_left (fun nd g => set_nth nd g (apR (nth g nd dn))) grp nd).
   Proof.
     induction grp as [| g grp IH]; intros nd; cbn [fold_left]; [reflexivity |].
     rewrite <- IH. f_equal.
@@ -361,11 +361,11 @@ Section IntegratorTr.
   Qed.
 
   Lemma process2_tr over dt damping cells nodes k :
-    process2 NumR over dt damping cells (map tri nodes) k = map tri (process2 NumR over dt damping cells nodes k).
+    process2 NumR over dt damping cells (map trI nodes) k = map trI (process2 NumR over dt damping cells nodes k).
   Proof.
     rewrite !process2_unfold. cbv zeta.
     destruct (nth_tr_cases k nodes) as [[Hk E] | [Hk [E1 E2]]].
-    - rewrite E, tri_cell, tri_used, tri_cpls, p2_ok_tr.
+    - rewrite E, trin_cell, trin_used, trin_cpls, p2_ok_tr.
       set (n1 := nth k nodes dn).
       destruct (c_static (nth (n_cell n1) cells dc)); [reflexivity |].
       destruct (negb (n_used n1)); [reflexivity |].
@@ -395,4 +395,369 @@ Proof.
   intros t n contact over dt damping. unfold equivariant.
   induction n as [| n IH]; intros s; cbn [steps]; [reflexivity |].
   rewrite step_tr. apply IH.
+Qed.
+
+(* ------------------------------------------------------------------ contact phase *)
+Lemma fold_opt_comm {S A} (sym : S -> S) (f f' : option S -> A -> option S) :
+  (forall a, f None a = None) -> (forall a, f' None a = None) ->
+  (forall s a, f' (Some (sym s)) a = option_map sym (f (Some s) a)) ->
+  forall l acc, fold_left f' l (option_map sym acc) = option_map sym (fold_left f l acc).
+Proof.
+  intros Hn Hn' H l. induction l as [| a l IH]; intros acc; cbn [fold_left]; [reflexivity |].
+  destruct acc as [s |]; cbn [option_map].
+  - rewrite H. apply IH.
+  - rewrite Hn, Hn'. apply (IH None).
+Qed.
+
+Lemma updn_map_comm {A B} (g : A -> B) (f : A -> A) (f' : B -> B) (l : list A) :
+  (forall x, f' (g x) = g (f x)) -> forall n, updn (map g l) n f' = map g (updn l n f).
+Proof.
+  intros H. induction l as [| x l IH]; intros [| n]; cbn [updn map]; try reflexivity.
+  - rewrite H. reflexivity.
+  - rewrite IH. reflexivity.
+Qed.
+
+Lemma all_some_map {A B} (f : A -> B) (l : list (option A)) :
+  all_some (map (option_map f) l) = option_map (map f) (all_some l).
+Proof.
+  induction l as [| [a |] l IH]; cbn [map all_some option_map]; try reflexivity.
+  rewrite IH. destruct (all_some l); reflexivity.
+Qed.
+
+Lemma min3_shift (a b d c : R) : min3 NumR (a + c) (b + c) (d + c) = min3 NumR a b d + c.
+Proof.
+  unfold min3, nmin. cbn [nltb NumR]. rewrite (Rltb_shift d b c).
+  destruct (Rltb d b); rewrite Rltb_shift; match goal with |- context [Rltb ?x a] => destruct (Rltb x a) end; reflexivity.
+Qed.
+Lemma max3_shift (a b d c : R) : max3 NumR (a + c) (b + c) (d + c) = max3 NumR a b d + c.
+Proof.
+  unfold max3, nmax. cbn [nltb NumR]. rewrite (Rltb_shift b d c).
+  destruct (Rltb b d); rewrite Rltb_shift; match goal with |- context [Rltb a ?x] => destruct (Rltb a x) end; reflexivity.
+Qed.
+
+Lemma bary_comb_tr (a b c u t : vR) : vx u + vy u + vz u = 1 ->
+  (a +v t) *v vx u +v (b +v t) *v vy u +v (c +v t) *v vz u = (a *v vx u +v b *v vy u +v c *v vz u) +v t.
+Proof.
+  destruct u as [ux uy uz], a as [ax ay az], b as [bx by_ bz], c as [cx cy cz], t as [tx ty tz].
+  cbn [vx vy vz]. intros H. vunfold. cbn [vx vy vz]. f_equal.
+  - transitivity (ax * ux + bx * uy + cx * uz + tx * (ux + uy + uz)); [ring | rewrite H; ring].
+  - transitivity (ay * ux + by_ * uy + cy * uz + ty * (ux + uy + uz)); [ring | rewrite H; ring].
+  - transitivity (az * ux + bz * uy + cz * uz + tz * (ux + uy + uz)); [ring | rewrite H; ring].
+Qed.
+
+Lemma mid_tr (p q t : vR) :
+  vscale NumR (vadd NumR (p +v t) (q +v t)) (Contact.half NumR) = vscale NumR (vadd NumR p q) (Contact.half NumR) +v t.
+Proof. unfold Contact.half. vunfold. cbn [nofZ NumR]. apply vec3_eq; cbn [vx vy vz]; lra. Qed.
+
+Section ContactTr.
+  Variables (eps dmax inf c45 c90 lmin cut_adh cut_rep : R).
+  Variable t : vR.
+  Notation stateR := (@Contact.state R).
+  Notation trn := (tr_cnode t).
+  Notation prepareR := (prepare NumR Zceil eps dmax inf lmin cut_adh cut_rep).
+  Notation tryR := (try_face NumR dmax c45 c90 cut_adh cut_rep).
+  Notation resolveR := (resolve_contact NumR dmax c45 cut_adh cut_rep).
+
+  Definition trc (c : ccell (T:=R)) : ccell (T:=R) :=
+    mkcc (cc_id c) (cc_local c) (cc_type c) (cc_maxcurv c) (map trn (cc_nodes c)) (cc_faces c).
+  Lemma tr_cstate_eq (st : stateR) : tr_cstate t st = map trc st.
+  Proof. reflexivity. Qed.
+
+  Lemma trc_id c : cc_id (trc c) = cc_id c. Proof. reflexivity. Qed.
+  Lemma trc_local c : cc_local (trc c) = cc_local c. Proof. reflexivity. Qed.
+  Lemma trc_type c : cc_type (trc c) = cc_type c. Proof. reflexivity. Qed.
+  Lemma trc_maxcurv c : cc_maxcurv (trc c) = cc_maxcurv c. Proof. reflexivity. Qed.
+  Lemma trc_nodes c : cc_nodes (trc c) = map trn (cc_nodes c). Proof. reflexivity. Qed.
+  Lemma trc_faces c : cc_faces (trc c) = cc_faces c. Proof. reflexivity. Qed.
+  Lemma trn_used (n : cnode (T:=R)) : cn_used (trn n) = cn_used n. Proof. reflexivity. Qed.
+  Lemma trn_pos (n : cnode (T:=R)) : cn_pos (trn n) = cn_pos n +v t. Proof. reflexivity. Qed.
+  Lemma trn_normal (n : cnode (T:=R)) : cn_normal (trn n) = cn_normal n. Proof. reflexivity. Qed.
+  Lemma trn_cpl (n : cnode (T:=R)) : cn_cpl (trn n) = cn_cpl n. Proof. reflexivity. Qed.
+  Lemma trn_sqd (n : cnode (T:=R)) : cn_sqd (trn n) = cn_sqd n. Proof. reflexivity. Qed.
+
+  (* ---- list updates *)
+  Lemma upd_node_tr (st : stateR) ci ni (f f' : cnode (T:=R) -> cnode (T:=R)) :
+    (forall n, f' (trn n) = trn (f n)) -> upd_node (map trc st) ci ni f' = map trc (upd_node st ci ni f).
+  Proof.
+    intros H. unfold upd_node. apply updn_map_comm. intros c.
+    cbv beta. unfold trc. cbn [cc_id cc_local cc_type cc_maxcurv cc_nodes cc_faces].
+    f_equal. apply updn_map_comm. exact H.
+  Qed.
+  Lemma upd_node_tr_same (st : stateR) ci ni (f : cnode (T:=R) -> cnode (T:=R)) :
+    (forall n, f (trn n) = trn (f n)) -> upd_node (map trc st) ci ni f = map trc (upd_node st ci ni f).
+  Proof. apply upd_node_tr. Qed.
+
+  (* ---- prepare *)
+  Lemma reset_state_tr (st : stateR) : reset_state dmax (map trc st) = map trc (reset_state dmax st).
+  Proof.
+    unfold reset_state. rewrite !map_map. apply map_ext. intros c.
+    unfold trc. cbn [cc_id cc_local cc_type cc_maxcurv cc_nodes cc_faces]. f_equal.
+    rewrite !map_map. apply map_ext. intros n.
+    unfold reset_node. rewrite trn_used. destruct (cn_used n); reflexivity.
+  Qed.
+
+  Lemma gfaces_tr (st : stateR) : gfaces (map trc st) = gfaces st.
+  Proof.
+    unfold gfaces. f_equal. rewrite map_length. generalize 0%nat.
+    induction st as [| c st IH]; intros k; cbn [length seq combine map]; [reflexivity |].
+    rewrite IH. reflexivity.
+  Qed.
+
+  Lemma node_pos_tr (st : stateR) ci ni : node_pos (map trc st) ci ni = option_map (fun p => p +v t) (node_pos st ci ni).
+  Proof.
+    unfold node_pos. rewrite nth_error_map'. destruct (nth_error st ci) as [c |]; cbn [option_map]; [| reflexivity].
+    rewrite trc_nodes, nth_error_map'. destruct (nth_error (cc_nodes c) ni) as [n |]; reflexivity.
+  Qed.
+
+  Definition shb (b : box (T:=R)) : box (T:=R) := mkbox (b_lo b +v t) (b_hi b +v t).
+
+  Lemma face_box_tr (p1 p2 p3 : vR) :
+    face_box NumR cut_adh cut_rep (p1 +v t) (p2 +v t) (p3 +v t) = shb (face_box NumR cut_adh cut_rep p1 p2 p3).
+  Proof.
+    unfold face_box, shb. cbn [b_lo b_hi vadd vx vy vz nadd nsub NumR].
+    rewrite !min3_shift, !max3_shift. f_equal; apply vec3_eq; cbn [vadd vx vy vz nadd NumR]; ring.
+  Qed.
+
+  Lemma face_box_of_tr (st : stateR) cf :
+    face_box_of NumR cut_adh cut_rep (map trc st) cf = option_map shb (face_box_of NumR cut_adh cut_rep st cf).
+  Proof.
+    destruct cf as [ci f]. unfold face_box_of. rewrite !node_pos_tr.
+    destruct (node_pos st ci (cf_n1 f)) as [p1 |]; cbn [option_map]; [| reflexivity].
+    destruct (node_pos st ci (cf_n2 f)) as [p2 |]; cbn [option_map]; [| reflexivity].
+    destruct (node_pos st ci (cf_n3 f)) as [p3 |]; cbn [option_map]; [| reflexivity].
+    rewrite face_box_tr. reflexivity.
+  Qed.
+
+  Lemma prepare_tr (st : stateR) :
+    match prepareR st with
+    | None => prepareR (map trc st) = None
+    | Some p => exists p', prepareR (map trc st) = Some p' /\
+                           p_state p' = map trc (p_state p) /\ p_gfs p' = p_gfs p /\ p_boxes p' = map shb (p_boxes p)
+    end.
+  Proof.
+    unfold prepare. cbv zeta. rewrite reset_state_tr, gfaces_tr.
+    rewrite (map_ext _ _ (face_box_of_tr (reset_state dmax st))).
+    rewrite <- (map_map (face_box_of NumR cut_adh cut_rep (reset_state dmax st)) (option_map shb)).
+    rewrite all_some_map.
+    destruct (all_some (map (face_box_of NumR cut_adh cut_rep (reset_state dmax st)) (gfaces (reset_state dmax st)))) as [boxes |];
+      cbn [option_map]; [| reflexivity].
+    eexists. split; [reflexivity |]. cbn [p_state p_gfs p_boxes]. repeat split.
+  Qed.
+
+  (* ---- narrow phase *)
+  Lemma in_box_tr (b : box (T:=R)) (p : vR) : in_box NumR (shb b) (p +v t) = in_box NumR b p.
+  Proof.
+    unfold in_box, shb. cbn [b_lo b_hi vadd vx vy vz nadd nltb NumR]. rewrite !Rltb_shift. reflexivity.
+  Qed.
+
+  Lemma cpl_dist_tr (n1 fn : cnode (T:=R)) mc : cpl_dist NumR dmax c45 (trn n1) (trn fn) mc = cpl_dist NumR dmax c45 n1 fn mc.
+  Proof. unfold cpl_dist. rewrite !trn_pos, vsub_tr. reflexivity. Qed.
+
+  Lemma cpl_choice_tr (n1 a b c : cnode (T:=R)) ia ib ic mc :
+    cpl_choice NumR dmax c45 (trn n1) (trn a) (trn b) (trn c) ia ib ic mc = cpl_choice NumR dmax c45 n1 a b c ia ib ic mc.
+  Proof. unfold cpl_choice. rewrite !cpl_dist_tr. reflexivity. Qed.
+
+  Lemma interaction_tr (p a b c fnormal : vR) area rep t1 t2 :
+    interaction NumR cut_adh cut_rep (p +v t) (a +v t) (b +v t) (c +v t) fnormal area rep t1 t2 =
+    interaction NumR cut_adh cut_rep p a b c fnormal area rep t1 t2.
+  Proof.
+    unfold interaction. cbv zeta. rewrite kernel_translate.
+    rewrite (bary_comb_tr a b c (k_bary (kernel NumR p a b c)) t (bary_sum_one_all p a b c)).
+    rewrite vsub_tr. reflexivity.
+  Qed.
+
+  Lemma resolve_contact_tr (st : stateR) c1i n1i gf :
+    resolveR (map trc st) c1i n1i gf = option_map (map trc) (resolveR st c1i n1i gf).
+  Proof.
+    destruct gf as [c2i f]. unfold resolve_contact. cbv zeta. rewrite !nth_error_map'.
+    destruct (nth_error st c1i) as [c1 |]; cbn [option_map]; [| reflexivity].
+    destruct (nth_error st c2i) as [c2 |]; cbn [option_map]; [| reflexivity].
+    rewrite !trc_nodes, !trc_type, !trc_local, !trc_maxcurv, !nth_error_map'.
+    destruct (nth_error (cc_nodes c1) n1i) as [n1 |]; cbn [option_map]; [| reflexivity].
+    destruct (nth_error (cc_nodes c2) (cf_n1 f)) as [a |]; cbn [option_map]; [| reflexivity].
+    destruct (nth_error (cc_nodes c2) (cf_n2 f)) as [b |]; cbn [option_map]; [| reflexivity].
+    destruct (nth_error (cc_nodes c2) (cf_n3 f)) as [c |]; cbn [option_map]; [| reflexivity].
+    rewrite cpl_choice_tr, trn_sqd, !trn_pos, interaction_tr.
+    assert (Hint :
+      match interaction NumR cut_adh cut_rep (cn_pos n1) (cn_pos a) (cn_pos b) (cn_pos c) (cf_normal f) (cf_area f) (cf_rep f) (cc_type c1) (cc_type c2) with
+      | Some (fn, fa, fb, fc) =>
+          Some (upd_node (upd_node (upd_node (upd_node (map trc st) c2i (cf_n1 f) (fun n => add_force NumR n fa))
+                                             c2i (cf_n2 f) (fun n => add_force NumR n fb))
+                                   c2i (cf_n3 f) (fun n => add_force NumR n fc))
+                         c1i n1i (fun n => add_force NumR n fn))
+      | None => Some (map trc st)
+      end =
+      option_map (map trc)
+      match interaction NumR cut_adh cut_rep (cn_pos n1) (cn_pos a) (cn_pos b) (cn_pos c) (cf_normal f) (cf_area f) (cf_rep f) (cc_type c1) (cc_type c2) with
+      | Some (fn, fa, fb, fc) =>
+          Some (upd_node (upd_node (upd_node (upd_node st c2i (cf_n1 f) (fun n => add_force NumR n fa))
+                                             c2i (cf_n2 f) (fun n => add_force NumR n fb))
+                                   c2i (cf_n3 f) (fun n => add_force NumR n fc))
+                         c1i n1i (fun n => add_force NumR n fn))
+      | None => Some st
+      end).
+    { destruct (interaction NumR cut_adh cut_rep (cn_pos n1) (cn_pos a) (cn_pos b) (cn_pos c) (cf_normal f) (cf_area f)
+                  (cf_rep f) (cc_type c1) (cc_type c2)) as [[[[fn fa] fb] fc] |]; cbn [option_map]; [| reflexivity].
+      rewrite !upd_node_tr_same by (intros n; reflexivity). reflexivity. }
+    destruct (Nat.eqb (cc_type c1) 0 && Nat.eqb (cc_type c2) 0); [| exact Hint].
+    destruct (cpl_choice NumR dmax c45 n1 a b c (cf_n1 f) (cf_n2 f) (cf_n3 f) (cc_maxcurv c1)) as [n2i d].
+    destruct ((nltb NumR d (cut2_adh NumR cut_adh)) && (nltb NumR d (cn_sqd n1))); [| exact Hint].
+    cbn [option_map]. rewrite !upd_node_tr_same by (intros n; reflexivity). reflexivity.
+  Qed.
+
+  Lemma try_face_tr boxes gfs c1i n1i (st : stateR) fid :
+    tryR (map shb boxes) gfs c1i n1i (Some (map trc st)) fid = option_map (map trc) (tryR boxes gfs c1i n1i (Some st) fid).
+  Proof.
+    unfold try_face. rewrite !nth_error_map'.
+    destruct (nth_error st c1i) as [c1 |]; cbn [option_map]; [| reflexivity].
+    destruct (nth_error gfs fid) as [gf |]; [| reflexivity].
+    destruct (nth_error boxes fid) as [b |]; cbn [option_map]; [| reflexivity].
+    rewrite nth_error_map'.
+    destruct (nth_error st (fst gf)) as [c2 |]; cbn [option_map]; [| reflexivity].
+    rewrite trc_nodes, nth_error_map'.
+    destruct (nth_error (cc_nodes c1) n1i) as [n1 |]; cbn [option_map]; [| reflexivity].
+    rewrite !trc_id, trn_pos, trn_normal, in_box_tr.
+    destruct (negb (Nat.eqb (cc_id c1) (cc_id c2))); [| reflexivity].
+    destruct (in_box NumR b (cn_pos n1) && nltb NumR (vdot NumR (cn_normal n1) (cf_normal (snd gf))) c90); [| reflexivity].
+    apply resolve_contact_tr.
+  Qed.
+
+  Lemma node_active_tr c (n : cnode (T:=R)) : node_active NumR (trc c) (trn n) = node_active NumR c n.
+  Proof. reflexivity. Qed.
+
+  Section Loop.
+    Variables (cands cands' : vR -> option (list nat)).
+    Hypothesis Hc : forall p, cands' (p +v t) = cands p.
+    Variables (boxes : list (box (T:=R))) (gfs : list (nat * cface (T:=R))).
+
+    Lemma innerF_tr ci (st2 : stateR) ni :
+      innerF dmax c45 c90 cut_adh cut_rep cands' (map shb boxes) gfs ci (Some (map trc st2)) ni =
+      option_map (map trc) (innerF dmax c45 c90 cut_adh cut_rep cands boxes gfs ci (Some st2) ni).
+    Proof.
+      unfold innerF. rewrite nth_error_map'.
+      destruct (nth_error st2 ci) as [c |]; cbn [option_map]; [| reflexivity].
+      rewrite trc_nodes, nth_error_map'.
+      destruct (nth_error (cc_nodes c) ni) as [n |]; cbn [option_map]; [| reflexivity].
+      rewrite node_active_tr. destruct (node_active NumR c n); [| reflexivity].
+      rewrite trn_pos, Hc. destruct (cands (cn_pos n)) as [l |]; [| reflexivity].
+      apply (fold_opt_comm (map trc) (tryR boxes gfs ci ni) (tryR (map shb boxes) gfs ci ni)
+               (fun a => eq_refl) (fun a => eq_refl) (fun s a => try_face_tr boxes gfs ci ni s a) l (Some st2)).
+    Qed.
+
+    Lemma outerF_tr (st : stateR) ci :
+      outerF dmax c45 c90 cut_adh cut_rep cands' (map shb boxes) gfs (Some (map trc st)) ci =
+      option_map (map trc) (outerF dmax c45 c90 cut_adh cut_rep cands boxes gfs (Some st) ci).
+    Proof.
+      unfold outerF. rewrite nth_error_map'.
+      destruct (nth_error st ci) as [c0 |]; cbn [option_map]; [| reflexivity].
+      rewrite trc_nodes, map_length.
+      apply (fold_opt_comm (map trc) (innerF dmax c45 c90 cut_adh cut_rep cands boxes gfs ci)
+               (innerF dmax c45 c90 cut_adh cut_rep cands' (map shb boxes) gfs ci)
+               (fun a => eq_refl) (fun a => eq_refl) (fun s a => innerF_tr ci s a) _ (Some st)).
+    Qed.
+
+    Lemma node_loop_tr (st0 : stateR) :
+      node_loop NumR dmax c45 c90 cut_adh cut_rep cands' (map shb boxes) gfs (map trc st0) =
+      option_map (map trc) (node_loop NumR dmax c45 c90 cut_adh cut_rep cands boxes gfs st0).
+    Proof.
+      rewrite !node_loop_eq, map_length.
+      apply (fold_opt_comm (map trc) (outerF dmax c45 c90 cut_adh cut_rep cands boxes gfs)
+               (outerF dmax c45 c90 cut_adh cut_rep cands' (map shb boxes) gfs)
+               (fun a => eq_refl) (fun a => eq_refl) (fun s a => outerF_tr s a) _ (Some st0)).
+    Qed.
+  End Loop.
+
+  (* ---- the second loop *)
+  Definition cinner (ci : nat) (acc2 : option stateR) (ni : nat) : option stateR :=
+    match acc2 with None => None | Some st2 =>
+      match nth_error st2 ci with None => None | Some c =>
+        match nth_error (cc_nodes c) ni with None => None | Some n =>
+          if cn_used n then
+            match cn_cpl n with
+            | Some (c2i, n2i) =>
+                if Nat.ltb c2i ci then
+                  match nth_error st2 c2i with None => None | Some c2 =>
+                    match nth_error (cc_nodes c2) n2i with None => None | Some n2 =>
+                      let m := vscale NumR (vadd NumR (cn_pos n) (cn_pos n2)) (Contact.half NumR) in
+                      Some (upd_node (upd_node st2 ci ni (fun x => set_pos x m)) c2i n2i (fun x => set_pos x m))
+                    end end
+                else Some st2
+            | None => Some st2
+            end
+          else Some st2
+        end end end.
+  Definition couter (acc : option stateR) (ci : nat) : option stateR :=
+    match acc with None => None | Some st =>
+      match nth_error st ci with None => None | Some c0 =>
+        fold_left (cinner ci) (seq 0 (length (cc_nodes c0))) (Some st)
+      end end.
+  Lemma centre_pairs_eq (st0 : stateR) : centre_pairs NumR st0 = fold_left couter (seq 0 (length st0)) (Some st0).
+  Proof. reflexivity. Qed.
+
+  Lemma cinner_tr ci (st2 : stateR) ni : cinner ci (Some (map trc st2)) ni = option_map (map trc) (cinner ci (Some st2) ni).
+  Proof.
+    unfold cinner. rewrite nth_error_map'.
+    destruct (nth_error st2 ci) as [c |]; cbn [option_map]; [| reflexivity].
+    rewrite trc_nodes, nth_error_map'.
+    destruct (nth_error (cc_nodes c) ni) as [n |]; cbn [option_map]; [| reflexivity].
+    rewrite trn_used, trn_cpl. destruct (cn_used n); [| reflexivity].
+    destruct (cn_cpl n) as [[c2i n2i] |]; [| reflexivity].
+    destruct (Nat.ltb c2i ci); [| reflexivity].
+    rewrite nth_error_map'.
+    destruct (nth_error st2 c2i) as [c2 |]; cbn [option_map]; [| reflexivity].
+    rewrite trc_nodes, nth_error_map'.
+    destruct (nth_error (cc_nodes c2) n2i) as [n2 |]; cbn [option_map]; [| reflexivity].
+    cbv zeta. rewrite !trn_pos, mid_tr. f_equal.
+    set (m := vscale NumR (vadd NumR (cn_pos n) (cn_pos n2)) (Contact.half NumR)).
+    rewrite (upd_node_tr st2 ci ni (fun x => set_pos x m) (fun x => set_pos x (m +v t))) by (intros x; reflexivity).
+    apply upd_node_tr. intros x; reflexivity.
+  Qed.
+
+  Lemma couter_tr (st : stateR) ci : couter (Some (map trc st)) ci = option_map (map trc) (couter (Some st) ci).
+  Proof.
+    unfold couter. rewrite nth_error_map'.
+    destruct (nth_error st ci) as [c0 |]; cbn [option_map]; [| reflexivity].
+    rewrite trc_nodes, map_length.
+    apply (fold_opt_comm (map trc) (cinner ci) (cinner ci) (fun a => eq_refl) (fun a => eq_refl)
+             (fun s a => cinner_tr ci s a) _ (Some st)).
+  Qed.
+
+  Lemma centre_pairs_tr (st0 : stateR) : centre_pairs NumR (map trc st0) = option_map (map trc) (centre_pairs NumR st0).
+  Proof.
+    rewrite !centre_pairs_eq, map_length.
+    apply (fold_opt_comm (map trc) couter couter (fun a => eq_refl) (fun a => eq_refl) (fun s a => couter_tr s a) _ (Some st0)).
+  Qed.
+
+  Lemma all_pairs_tr (st : stateR) :
+    all_pairs_phase NumR Zceil eps dmax inf c45 c90 lmin cut_adh cut_rep (tr_cstate t st) =
+    option_map (tr_cstate t) (all_pairs_phase NumR Zceil eps dmax inf c45 c90 lmin cut_adh cut_rep st).
+  Proof.
+    rewrite tr_cstate_eq. unfold all_pairs_phase. pose proof (prepare_tr st) as Hp.
+    destruct (prepareR st) as [p |].
+    - destruct Hp as (p' & Ep' & Es & Eg & Eb). rewrite Ep'. unfold all_faces_desc. rewrite Es, Eg, Eb.
+      rewrite (node_loop_tr (fun _ => Some (rev (seq 0 (length (p_gfs p))))) (fun _ => Some (rev (seq 0 (length (p_gfs p)))))
+                 (fun _ => eq_refl) (p_boxes p) (p_gfs p) (p_state p)).
+      destruct (node_loop NumR dmax c45 c90 cut_adh cut_rep (fun _ => Some (rev (seq 0 (length (p_gfs p)))))
+                  (p_boxes p) (p_gfs p) (p_state p)) as [st2 |]; cbn [option_map]; [| reflexivity].
+      apply centre_pairs_tr.
+    - rewrite Hp. reflexivity.
+  Qed.
+End ContactTr.
+
+Lemma all_pairs_equivariant (eps dmax inf c45 c90 lmin cut_adh cut_rep : R) :
+  forall t : vR, equivariant_opt (tr_cstate t) (all_pairs_phase NumR Zceil eps dmax inf c45 c90 lmin cut_adh cut_rep).
+Proof. intros t st. apply all_pairs_tr. Qed.
+
+Lemma phase_equivariant (eps dmax inf c45 c90 lmin cut_adh cut_rep : R)
+  (Hlmin : 0 < lmin) (Hadh : 0 <= cut_adh) (Hrep : 0 <= cut_rep) :
+  forall (t : vR) st r s r' s',
+  contact_phase NumR Zfloor Zceil eps dmax inf c45 c90 lmin cut_adh cut_rep st = Some (r, s) ->
+  contact_phase NumR Zfloor Zceil eps dmax inf c45 c90 lmin cut_adh cut_rep (tr_cstate t st) = Some (r', s') ->
+  r' = tr_cstate t r.
+Proof.
+  intros t st r s r' s' H1 H2.
+  apply (grid_all_pairs eps dmax inf c45 c90 lmin cut_adh cut_rep Hlmin Hadh Hrep) in H1.
+  apply (grid_all_pairs eps dmax inf c45 c90 lmin cut_adh cut_rep Hlmin Hadh Hrep) in H2.
+  rewrite (all_pairs_equivariant eps dmax inf c45 c90 lmin cut_adh cut_rep t st), H1 in H2.
+  cbn [option_map] in H2. injection H2 as H2. symmetry. exact H2.
 Qed.
